@@ -307,13 +307,13 @@ impl Drop for Hostile {
     }
 }
 
-enum SrvConn {
+pub(super) enum SrvConn {
     Tcp(TcpStream),
     Ws(tokio_websockets::WebSocketStream<TcpStream>),
 }
 
 impl SrvConn {
-    async fn recv(&mut self) -> Option<Vec<u8>> {
+    pub(super) async fn recv(&mut self) -> Option<Vec<u8>> {
         use futures::StreamExt;
         match self {
             SrvConn::Tcp(s) => {
@@ -333,7 +333,7 @@ impl SrvConn {
             },
         }
     }
-    async fn send(&mut self, b: &[u8]) {
+    pub(super) async fn send(&mut self, b: &[u8]) {
         use futures::SinkExt;
         match self {
             SrvConn::Tcp(s) => {
